@@ -96,6 +96,16 @@ def rand_rules(rng, R, nN=3, V=("a", "b"), nrules=5, maxbody=3, shape="any", dup
             if rng.random() < 0.7:
                 rules.append((rng.choice(ws), rng.choice(outside), (rng.choice(list(V)), x) + ((rng.choice(list(V)),) if rng.random() < 0.5 else ())))
         rng.shuffle(rules)
+    if shape in ("any", "acyclic") and rng.random() < 0.3 and nN >= 2:
+        # a nullable nonterminal that occurs twice in one body (dropping either occurrence gives the same reduced
+        # body: two families of derivations whose weights must add up)
+        k = rng.randrange(1, nN)
+        n_ = Ns[k]
+        rules.append((rng.choice(ws), n_, ()))
+        if rng.random() < 0.7:
+            rules.append((rng.choice(ws), n_, (rng.choice(list(V)),)))
+        h = Ns[rng.randrange(0, k)]
+        rules.append((rng.choice(ws), h, rng.choice([(n_, n_), (n_, rng.choice(list(V)), n_), (n_, n_, rng.choice(list(V)))])))
     # exact duplicates (same weight, head and body) are part of several properties' quantifiers
     while rules and rng.random() < dup:
         rules.insert(rng.randrange(len(rules) + 1), rng.choice(rules))
